@@ -71,7 +71,7 @@ def spec(c, io, mo):
             c['_class'] = 'vse'
             # distributor form (max_seats > 1): the last candidates standing may be unable to reach another quota
             return None if (c['cfg']['mq'] or c['cfg']['quota'] is None or c['cfg']['step'] == -2
-                            or c['form'] == 'distributor') else \
+                            or c['form'] == 'distributor' or len(cands) < c['n']) else \
                 'count refused with VotingSystemError although enough candidates stand'
         c['_class'] = 'crash'
         return 'undeclared exception %s' % common.E_NAME.get(v[1], v[1])
